@@ -91,3 +91,35 @@ impl<'a> List<&'a State> {
         unimplemented!()
     }
 }
+
+// instance at T = &Transition (used for the per-state transition list in selectEventlessTransitions); assumed with
+// the same shape as the verified u32 instance
+impl<'a> List<&'a Transition> {
+    #[verifier::external_body]
+    pub fn new() -> (r: List<&'a Transition>)
+        ensures
+            r.data@.len() == 0,
+    {
+        unimplemented!()
+    }
+
+    #[verifier::external_body]
+    pub fn push(&mut self, t: &'a Transition)
+        ensures
+            final(self).data@ == old(self).data@.push(t),
+    {
+        unimplemented!()
+    }
+
+    #[verifier::external_body]
+    pub fn sort<F: Fn(&&'a Transition, &&'a Transition) -> std::cmp::Ordering>(&self, compare: &F) -> (r: List<&'a Transition>)
+        requires
+            forall|i: int, j: int| 0 <= i < self.data@.len() && 0 <= j < self.data@.len() ==> call_requires(*compare, (&#[trigger] self.data@[i], &#[trigger] self.data@[j])),
+        ensures
+            r.data@.to_multiset() == self.data@.to_multiset(),
+            r.data@.len() == self.data@.len(),
+            forall|le: spec_fn(&'a Transition, &'a Transition) -> bool| cmp_matches(*compare, le) ==> r.data@ == #[trigger] sorted_seq(self.data@, le),
+    {
+        unimplemented!()
+    }
+}
